@@ -791,7 +791,10 @@ def _ref_value(w, rec, levels, allowed, fids):
     comps, ifs = set(w["composites"]), _ik(w["ifs"])
     vb, va = rec["vals_before"], rec["vals_after"]
     vin, vout_after = _ik(vb["in"]), _ik(va["out"])
-    drivers = set(levels[:-1])
+    # a macro that drives a level is run in full (`parent.run()`), which fetches its own inputs from whatever
+    # their upstream channels hold at that moment and forwards them by value to its children
+    par = _ik(w["parent"])
+    drivers = {par.get(a) for a in levels} - {None}
     memo = {}
 
     def slotval(g, lab):
@@ -900,6 +903,13 @@ def _oracle_rec(case, w, rec, fids):
             fail("cyclic-not-refused", f"the data of level target {levels[refusing[0]]} is cyclic but the pull returned")
         elif missing:
             fail("closure-incomplete", f"upstream nodes {missing} did not run: {log}")
+    else:
+        # a pull of acyclic, executor-free, single-scope data in which nothing raises has to return
+        # (macros run as one unit are left out: what happens inside them is not this property's subject)
+        inner_fail = set(case.get("fails", []))
+        if (refusing is None and not out and not (allowed & comps) and not (allowed & inner_fail)
+                and not (set(rec["before"]["failed"]) & (allowed | drivers))):
+            fail("unexpected-failure", f"nothing upstream is cyclic, on an executor, foreign or failing, yet: {rec['err']}")
     # 5. the graph is as before, whatever the outcome
     b, a = rec["before"], rec["after"]
     bc, ac = _ik(b["conns"]), _ik(a["conns"])
